@@ -1394,7 +1394,7 @@ func (j *jsonhRunner) nonEmptyStr() string {
 
 func (j *jsonhRunner) timeVal() time.Time { return Pick(j.rng, j.times) }
 
-var jsonhMarOK = []string{`{"a":1}`, " [1, 2 ,\t{\"x\" : null}]\n ", `"str"`, `null`, `1e5`, `true`, `"  \ud800 <&> \/"`, `{}`, `[]`, `-0.0`, `{"a":{"a":1,"a":2}}`, `"` + " \x7f" + `"`}
+var jsonhMarOK = []string{"{\n  \"a\": 1,\n  \"b\": [\n    true\n  ]\n}", "[\r\n1\r\n]", `{"a":1}`, " [1, 2 ,\t{\"x\" : null}]\n ", `"str"`, `null`, `1e5`, `true`, `"  \ud800 <&> \/"`, `{}`, `[]`, `-0.0`, `{"a":{"a":1,"a":2}}`, `"` + " \x7f" + `"`}
 var jsonhMarGarbage = []string{`{`, `,,`, "\"\xff", ``, `{"a":}`, `nul`, `[1,]`, `1 2`, "\"\n\"", `}`, `"\x"`, "\x00", `01`}
 
 // raw: a Go value for slog.Any
@@ -1626,6 +1626,8 @@ func (j *jsonhRunner) genInput() *jsonhInput {
 	nsteps := r.Intn(6)
 	if r.Chance(25) {
 		nsteps = 0
+	} else if r.Chance(6) {
+		nsteps = 7 + r.Intn(10) // deep chains: many open groups / long preformatted prefixes
 	}
 	for i := 0; i < nsteps; i++ {
 		switch c := r.Intn(100); {
